@@ -340,6 +340,8 @@ class Interp:
             if key in self.builtins:
                 return self.builtins[key]
             return self.loader.external(v.name, name)
+        if isinstance(v, Builtin) and name in ("__name__", "__qualname__"):
+            return v.name.rsplit(".", 1)[-1]
         if isinstance(v, Builtin) and f"{v.name}.{name}" in self.builtins:
             return self.builtins[f"{v.name}.{name}"]          # e.g. itertools.chain.from_iterable
         if isinstance(v, Builtin) and v.name == "dict" and name == "fromkeys":
@@ -368,6 +370,8 @@ class Interp:
                 return hook(self, v, name)
         if isinstance(v, Opaque) and hasattr(v, "m_getattr"):
             return v.m_getattr(self, name)
+        if isinstance(v, Opaque) and name in ("__name__", "__qualname__") and str(getattr(v, "tag", "")).startswith("ext:"):
+            return v.tag.rsplit(".", 1)[-1]      # a third-party / stdlib function knows its own name
         if isinstance(v, Opaque):
             hook = self.spec.opaque_hooks.get("getattr")
             if hook:
